@@ -243,3 +243,56 @@ Proof.
     assert (0 <= x * / c) by (apply Rmult_le_pos; lra). lra. }
   destruct H as [H|H]; [left; now apply exp_increasing | rewrite H; lra].
 Qed.
+
+(* ---------- the actual exp terms: E x = exp(-x / constant) with the constant recorded by training ---------- *)
+
+Theorem knn_sup_query_rule_exp (fmax thr one gdens0 eps : R) (k : nat) (labels : list nat)
+        (d e : nat -> nat -> R) :
+  let n := length labels in
+  (1 <= k)%nat -> (k <= n)%nat -> 1 <= fmax ->
+  (forall i j, (i < n)%nat -> (j < n)%nat -> i <> j -> 0 <= d i j < fmax) ->
+  (forall i j, (i < n)%nat -> (j < n)%nat -> 0 <= e i j <= 1) ->
+  0 < eps -> 999 <= eps * fmax ->
+  forall (g' : @knn R) (c mn mx : R),
+  knn_sup_final ROps fmax thr one 1000 k labels gdens0 d e = (g', (c, mn, mx)) ->
+  0 < c ->
+  forall dq : nat -> R, (forall j, (j < n)%nat -> 0 <= dq j < fmax) ->
+  let E := fun x => exp (- x / c) in
+  let answer := knn_query ROps fmax eps 1000 E (g', (c, mn, mx)) k dq in
+  query_rule_R fmax eps k n E mn mx g' dq answer /\
+  exists s, answer = Some s /\ (s < n)%nat /\ label_of g' answer = nth s labels 0%nat.
+Proof.
+  intros n Hk1 Hkn Hf1 Hd He Heps Hbig g' c mn mx Hfin Hc dq Hdq.
+  exact (knn_sup_query_rule fmax thr one gdens0 eps k labels d e (fun x => exp (- x / c))
+           Hk1 Hkn Hf1 Hd He Heps Hbig (exp_term_01 c Hc) g' c mn mx Hfin dq Hdq).
+Qed.
+
+Theorem unsup_query_rule_exp (fmax thr one gdens0 eps : R) (k : nat) (labels : list nat)
+        (d e : nat -> nat -> R) :
+  let n := length labels in
+  (1 <= k)%nat -> (k <= n)%nat -> 1 <= fmax ->
+  (forall i j, (i < n)%nat -> (j < n)%nat -> i <> j -> 0 <= d i j < fmax) ->
+  (forall i j, (i < n)%nat -> (j < n)%nat -> 0 <= e i j <= 1) ->
+  0 < eps -> 999 <= eps * fmax ->
+  forall (g' : @knn R) (c mn mx : R),
+  (k <= n - 1)%nat ->
+  unsup_final ROps fmax thr one 1000 k labels gdens0 d e = (g', (c, mn, mx)) ->
+  0 < c ->
+  forall dq : nat -> R, (forall j, (j < n)%nat -> 0 <= dq j < fmax) ->
+  let E := fun x => exp (- x / c) in
+  let answer := knn_query ROps fmax eps 1000 E (g', (c, mn, mx)) k dq in
+  let g'' := propagate_labels g' in
+  query_rule_R fmax eps k n E mn mx g' dq answer /\
+  knn_query ROps fmax eps 1000 E (with_propagated_labels (g', (c, mn, mx))) k dq = answer /\
+  exists s, answer = Some s /\ (s < n)%nat /\
+    let r := nth s (k_root g') 0%nat in
+    (r < n)%nat /\ nth r (k_pred g') None = None /\
+    label_of g'' answer = nth r labels 0%nat /\
+    cluster_of g'' answer = nth s (k_clabel g') 0%nat /\
+    nth s (k_clabel g') 0%nat = nth r (k_clabel g') 0%nat /\
+    (nth s (k_clabel g') 0%nat < k_nclusters g')%nat.
+Proof.
+  intros n Hk1 Hkn Hf1 Hd He Heps Hbig g' c mn mx Hk Hfin Hc dq Hdq.
+  exact (unsup_query_rule fmax thr one gdens0 eps k labels d e (fun x => exp (- x / c))
+           Hk1 Hkn Hf1 Hd He Heps Hbig (exp_term_01 c Hc) g' c mn mx Hk Hfin dq Hdq).
+Qed.
